@@ -27,12 +27,15 @@ type rsFineVariant struct {
 	Note    string
 	Kind    int    // 0: held task on a dead client while the loop reconnects; 1: held inside a Retry pass
 	Ops     []rsOp // Kind 1: first request (fails), then the requests deferred behind it
+	// LateRelease (Kind 0): the held task stays inside OnError until the next connection is established and the
+	// After requests were submitted: nothing younger may run before the held request has finished
+	LateRelease bool
 	Faults  []rsFault
 }
 
 func (v *rsFineVariant) describe() map[string]interface{} {
 	return map[string]interface{}{"held_in_OnError": rsDescOps([]rsOp{v.Held}), "while_held": rsDescOps(v.Before),
-		"between_SetClient_and_init": rsDescOps(v.Between), "after_release_before_CONNACK": rsDescOps(v.After), "note": v.Note}
+		"between_SetClient_and_init": rsDescOps(v.Between), "after_release_before_CONNACK": rsDescOps(v.After), "held_until_next_connection_is_up": v.LateRelease, "note": v.Note}
 }
 
 // rsRunFine: connection 0 is accepted and then cut while idle; Held is submitted (its task fails on the
@@ -328,6 +331,68 @@ func rsRunFine(v *rsFineVariant) (rsObs, string) {
 		}
 		lab("LDetectEnd")
 		lab("LBackoff")
+		if v.LateRelease {
+			dialGo <- struct{}{}
+			lab("LDial true")
+			lab("LSetClient")
+			lab("LConnBegin")
+			if !connectAccept(true, "conn 1") {
+				return
+			}
+			lab("LConnEnd (CoAccept true)")
+			lab("LPushResub")
+			lab("LPushRetry")
+			if !waitTasks(pushed+2, "loop did not push Retry on conn 1") {
+				return
+			}
+			for _, op := range v.After {
+				submit(op)
+			}
+			// the task goroutine is still inside OnError of the held task: give younger requests the chance
+			// to run ahead of it (they must not)
+			for i := 0; i < 300; i++ {
+				time.Sleep(50 * time.Microsecond)
+			}
+			close(goErr)
+			if !barrier("conn 1") {
+				return
+			}
+			if v.Held.QoS == 0 {
+				lab("LTask") // notices the switch
+			}
+			lab("LObserve 2%nat")
+			for i := 0; i < len(v.Before)+len(v.After)+1; i++ {
+				lab("LTask")
+			}
+			// one more connection: whatever is still waiting for retransmission goes out now
+			b.mu.Lock()
+			c1 := b.conns[len(b.conns)-1]
+			b.mu.Unlock()
+			c1.cut()
+			lab("LIdleCut")
+			if !wait(dialReq, "no redial after the idle cut of connection 1") {
+				return
+			}
+			lab("LDetectEnd")
+			lab("LBackoff")
+			dialGo <- struct{}{}
+			lab("LDial true")
+			lab("LSetClient")
+			lab("LConnBegin")
+			if !connectAccept(true, "conn 2") {
+				return
+			}
+			lab("LConnEnd (CoAccept true)")
+			lab("LPushResub")
+			lab("LPushRetry")
+			if !waitTasks(pushed+3, "loop did not push Retry on conn 2") || !barrier("conn 2") {
+				return
+			}
+			lab("LTask") // notices the switch
+			lab("LObserve 3%nat")
+			lab("LTask")
+			return
+		}
 		mu.Lock()
 		holdOpt = true
 		mu.Unlock()
@@ -430,6 +495,10 @@ func rsFineVariants() []*rsFineVariant {
 	out = append(out, &rsFineVariant{Held: rsP(1, 0), Between: []rsOp{p3(2, 1), p3(3, 2), p3(4, 1)}, MethodB: true, Note: "three requests between SetClient and init while the task goroutine is busy"})
 	out = append(out, &rsFineVariant{Held: rsP(1, 0), Before: []rsOp{p3(2, 2)}, Between: []rsOp{p3(3, 1)}, After: []rsOp{p3(4, 1), p3(5, 0)}, Note: "requests queued before the redial, between SetClient and init, and after the switch was noticed"})
 	out = append(out, &rsFineVariant{Held: rsP(1, 1), Before: []rsOp{p3(2, 1), p3(3, 1)}, Between: []rsOp{p3(4, 1)}, Note: "held task queued a retry; three requests behind it"})
+	// the held task stays in OnError (slow callback) until the next connection is up and younger requests wait
+	out = append(out, &rsFineVariant{Held: rsP(1, 1), Before: []rsOp{p3(2, 1), p3(3, 1)}, After: []rsOp{p3(4, 1)}, LateRelease: true, Note: "slow OnError of a failed request while the client reconnects; younger requests wait behind it"})
+	out = append(out, &rsFineVariant{Held: rsP(1, 2), Before: []rsOp{p3(2, 1)}, After: []rsOp{p3(3, 2), p3(4, 0)}, LateRelease: true, MethodB: true, Note: "slow OnError of a failed QoS 2 request while the client reconnects"})
+	out = append(out, &rsFineVariant{Held: rsP(1, 0), Before: []rsOp{p3(2, 1), p3(3, 1)}, After: []rsOp{p3(4, 1)}, LateRelease: true, Note: "slow OnError of a failed QoS 0 request while the client reconnects"})
 	// pinned inside a Retry pass (OnError of a deferred request whose write was cut) while the loop has already
 	// installed and initialised the next client: the rest of the pass still belongs to the old connection
 	for _, q := range []byte{1, 2} {
